@@ -140,6 +140,50 @@ def gen_upgrade_chain(rng):
     return family
 
 
+def gen_partial_refusal(rng):
+    """A holds an event type and a source; B brings an object type that A lacks, a valid upgrade of the event type that starts
+    using it, and a definition of the source that is in conflict with A's (same version, described differently): the update is
+    refused after the object type and the event type were merged."""
+    et = G.base_eventtype()
+    src = G.base_source()
+    a = {'ot': None, 'concept': dict(G.base_concept(), name='c.v'), 'source': src, 'et': et}
+    et2 = copy.deepcopy(et)
+    prop = G.base_prop('w', 'ot.new')
+    prop['optional'] = True
+    et2['props'].append(prop)
+    et2['version'] += 1
+    src2 = copy.deepcopy(src)
+    src2['free']['description'] = 'described differently'
+    b = {'ot': dict(G.base_objecttype(), name='ot.new', dataType=rng.choice(['string:0:mc:u', 'number:int', 'boolean'])),
+         'concept': dict(G.base_concept(), name='c.v'), 'source': src2, 'et': et2}
+    return [a, b, copy.deepcopy(a)]
+
+
+def health(o):
+    """An ontology that refused an update goes on being used: it validates, equals itself and its validator works."""
+    from edxml.error import EDXMLValidationError
+    from edxml.event_validator import EventValidator
+    from edxml.event import EDXMLEvent
+    try:
+        o.validate()
+    except EDXMLValidationError as ex:
+        return 'it does not validate any more (%s)' % str(ex)[:120]
+    except Exception as ex:
+        return 'validate() raises ' + type(ex).__name__
+    try:
+        if not (o == o):
+            return 'it does not equal itself'
+    except Exception as ex:
+        return 'comparing it with itself raises ' + type(ex).__name__
+    try:
+        o.generate_xml()
+        if o.get_event_type('t') is not None:
+            EventValidator(o).is_valid(EDXMLEvent({'p': ['x']}, 't', '/a/'))
+    except Exception as ex:
+        return 'serializing it or validating an event with it raises ' + type(ex).__name__
+    return True
+
+
 class C11(Property):
     id = 'C11'
     title = 'Ontology update yields the element-wise newest definitions and nothing else'
@@ -173,6 +217,10 @@ class C11(Property):
     def generate(self, rng, tier):
         n = 150 if tier == 'quick' else 5000
         for i in range(n):
+            if i % 10 == 3:
+                # an update that is refused after part of it was merged: the ontology goes on being used
+                yield {'onts': gen_partial_refusal(rng), 'order': [0, 1], 'paths': [rng.choice(['object', 'xml'])]}
+                continue
             if i % 5 == 4:
                 # successive valid upgrades, applied in the order they were made
                 yield {'onts': gen_upgrade_chain(rng), 'order': [0, 1, 2], 'paths': [rng.choice(['object', 'xml']) for _ in range(2)]}
@@ -214,7 +262,7 @@ class C11(Property):
                 if incompatible:
                     return {'err': None, 'silently_accepted': True}, None, None
             except EDXMLOntologyValidationError:
-                return {'err': 'EDXMLOntologyValidationError', 'expected_failure': incompatible}, None, None
+                return {'err': 'EDXMLOntologyValidationError', 'expected_failure': incompatible, 'after_refusal': health(A)}, None, None
             except Exception as ex:
                 return {'err': 'foreign:' + type(ex).__name__}, None, None
             if full(B) != before:
@@ -364,7 +412,7 @@ class C11(Property):
     def predict(self, case, replies):
         r = replies[0]
         if 'err' in r:
-            return {'err': r['err'], 'expected_failure': True}
+            return {'err': r['err'], 'expected_failure': True, 'after_refusal': True}
         res = {'ok': self.expected_view(case, r, case['order']), 'untouched': True, 'monotone': True,
                'idempotent': True, 'older_ignored': True, 'restored': True, 'refused_then_taken': True, 'owned': True, 'b_independent': True, 'a_independent': True}
         if len(case['order']) == 2:
@@ -385,6 +433,8 @@ class C11(Property):
                 return 'update raised %s' % obs['err']
             if not obs.get('expected_failure', True):
                 return 'update() failed although every pair of definitions compares as equal or as a valid upgrade'
+            if obs.get('after_refusal', True) is not True:
+                return 'after update() refused an ontology, the ontology that refused it is broken: %s' % obs['after_refusal']
             return None
         if not obs['untouched']:
             return 'the ontology passed to update() was modified'
